@@ -12,7 +12,7 @@ using namespace OP2Utility::Archive; using json = nlohmann::json;
 static const int N = 314;
 static void paths_of(AdaptiveHuffmanTree& t, std::vector<std::vector<int>>& out) { out.assign(N, {}); std::vector<int> cur; std::function<void(unsigned)> go = [&](unsigned n) { if (cur.size() > 700) throw std::logic_error("cycle"); if (t.IsLeaf(n)) { unsigned d = t.GetNodeData(n); if (d < (unsigned)N) out[d] = cur; return; } cur.push_back(0); go(t.GetChildNode(n, false)); cur.back() = 1; go(t.GetChildNode(n, true)); cur.pop_back(); }; go(t.GetRootNodeIndex()); }
 // the encoder's view: the bit string GetEncodedBitString reports for a symbol, in the order the decoder consumes it (LSB = branch at the root)
-static json enc_of(AdaptiveHuffmanTree& t, unsigned x) { try { unsigned bc = 0; unsigned bs = t.GetEncodedBitString((unsigned short)x, bc); if (bc > 64) return "unreadable"; json a = json::array(); for (unsigned i = 0; i < bc; ++i) a.push_back(i < 32 ? (bs >> i) & 1 : 0); return a; } catch (const std::exception&) { return "unreadable"; } }
+static json enc_of(AdaptiveHuffmanTree& t, unsigned x) { try { unsigned bc = 0; unsigned bs = t.GetEncodedBitString((unsigned short)x, bc); if (bc > 64) return json::array({-1}); json a = json::array(); for (unsigned i = 0; i < bc; ++i) a.push_back(i < 32 ? (bs >> i) & 1 : 0); return a; } catch (const std::exception&) { return json::array({-1}); } }
 // "fib": the 314 symbols start with weight 1 each (a balanced blob B of weight 314, codes of 8-9 bits).  Symbol 7*i is then updated t_i times
 // in a row with t_1 = t_2 = 314 and t_(i+2) = 314 + t_1 + ... + t_i: each heavy symbol is as frequent as everything lighter together, the
 // profile that makes codes as long as the counters allow (ten such symbols fit below the capacity: codes of more than 16 bits)
@@ -25,7 +25,7 @@ int main(int argc, char** argv) { std::string pattern = "random"; long steps = 1
 		if (pattern == "random" && rng() % 997 == 0) x = N + (unsigned)(rng() % 3);                       // now and then an out-of-range symbol
 		bool ok = true; try { t.UpdateCodeCount(x); } catch (const std::exception&) { ok = false; }
 		json ev{{"e", "Upd"}, {"x", x}, {"ok", ok}, {"path", json::array()}, {"enc", json::array()}}; if (x < (unsigned)N) ev["enc"] = enc_of(t, x);
-		try { paths_of(t, P); if (x < (unsigned)N) ev["path"] = P[x]; } catch (const std::exception&) { ev["path"] = "unreadable"; }
+		try { paths_of(t, P); if (x < (unsigned)N) ev["path"] = P[x]; } catch (const std::exception&) { ev["path"] = json::array({-1}); }
 		std::cout << ev.dump() << "\n";
 		if ((k + 1) % every == 0 || k + 1 == steps) { json E = json::array(); for (int s = 0; s < N; ++s) E.push_back(enc_of(t, (unsigned)s)); std::cout << json{{"e", "Table"}, {"paths", P}, {"enc", E}}.dump() << "\n"; } }
 	return 0; }
